@@ -414,6 +414,10 @@ impl Model for M {
         out.into_bytes()
     }
 
+    fn probe_once_per_state(&self) -> bool {
+        true
+    }
+
     fn probe(&self, mut s: Sys, _hist: &[Ev]) -> Result<u64, Fail> {
         let mut class = 0u64;
         // destructive probe: if both completed the same attempt, each opens what the other seals
@@ -515,10 +519,10 @@ pub fn run_object_level(ctx: &Ctx) {
             ctx,
             &fam,
             &m,
-            ExploreOpts { max_depth: depth, wall_cap: Duration::from_secs(ctx.tier.pick(45, 2400)), state_cap: ctx.tier.pick(400_000, 8_000_000), dedup: true },
+            ExploreOpts { max_depth: depth, wall_cap: Duration::from_secs(ctx.tier.pick(400, 2400)), state_cap: ctx.tier.pick(400_000, 8_000_000), dedup: true },
         );
         if i == 0 {
-            explore::audit_dedup(ctx, &fam, &m, &res, 4, Duration::from_secs(ctx.tier.pick(60, 600)));
+            explore::audit_dedup(ctx, &fam, &m, &res, 4, Duration::from_secs(ctx.tier.pick(300, 600)));
         }
     }
 }
